@@ -4,7 +4,7 @@
    - calls to other functions go through `fenv` (semantic functions of already interpreted definitions and
      of the external primitives), so the interpreter itself is structurally recursive on the syntax;
    - anything outside the fragment evaluates to `Exc Unmodelled`, never to a made-up value. *)
-From BHW Require Import Lib.Base Lib.Digits Lib.ListAux.
+From BHW Require Import Lib.Base Lib.Digits Lib.ListAux Lib.PyInt.
 From BHW Require Export Py.Syntax.
 
 Inductive R (A : Type) : Type := Val (a : A) | Exc (e : exn).
@@ -41,6 +41,7 @@ Definition truthy (v : val) : bool :=
   | VList l => match l with [] => false | _ => true end
   | VTuple l => match l with [] => false | _ => true end
   | VEnum _ => true
+  | VObj _ _ => true
   end.
 
 Fixpoint val_eqb (a b : val) {struct a} : bool :=
@@ -182,7 +183,9 @@ Definition apply_unop (op : unop) (a : val) : R val :=
   | _, _ => Exc TypeError
   end.
 
+Definition is_obj (v : val) : bool := match v with VObj _ _ => true | _ => false end.
 Definition apply_cmp (op : cmpop) (a b : val) : R val :=
+  if is_obj a || is_obj b then Exc Unmodelled else      (* identity / user-defined __eq__ are outside the fragment *)
   match op with
   | Eq => Val (VBool (val_eqb a b))
   | NotEq => Val (VBool (negb (val_eqb a b)))
@@ -233,22 +236,12 @@ Definition all_ints (l : list val) : option (list Z) :=
 Definition all_strs (l : list val) : option (list (list Z)) :=
   fold_right (fun v acc => match v, acc with VStr z, Some r => Some (z :: r) | _, _ => None end) (Some []) l.
 
-(* int(str): CPython accepts ASCII decimal digits with an optional sign, surrounding white space, single
-   underscores between digits and non-ASCII decimal digits; we give a meaning to [+-]?digits and to
-   strings that cannot be any of the lenient forms (ValueError), and refuse the rest (Unmodelled) *)
-Definition is_digit (c : Z) : bool := (48 <=? c) && (c <=? 57).
-Definition parse_nat (s : list Z) : Z := fold_left (fun acc c => acc * 10 + (c - 48)) s 0.
+(* int(str): Lib/PyInt.py_int gives CPython's meaning for ASCII input (white space stripped, sign, digits with single
+   underscores); non-ASCII input (other Unicode digits / spaces are accepted by CPython) is refused as Unmodelled *)
 Definition plain_digits (ds : list Z) : bool :=
   match ds with [] => false | _ => forallb is_digit ds end.
-Definition lenient_char (c : Z) : bool :=
-  (c =? 95) || (c =? 32) || ((9 <=? c) && (c <=? 13)) || ((28 <=? c) && (c <=? 31)) || (128 <=? c).
 Definition int_of_str (s : list Z) : R val :=
-  if existsb lenient_char s then Exc Unmodelled else
-  match s with
-  | 45 :: ds => if plain_digits ds then Val (VInt (- parse_nat ds)) else Exc ValueError
-  | 43 :: ds => if plain_digits ds then Val (VInt (parse_nat ds)) else Exc ValueError
-  | ds => if plain_digits ds then Val (VInt (parse_nat ds)) else Exc ValueError
-  end.
+  if ascii s then match py_int s with Ok z => Val (VInt z) | Err => Exc ValueError end else Exc Unmodelled.
 
 (* str(int) *)
 Definition str_of_int (n : Z) : list Z :=
@@ -315,13 +308,12 @@ Definition apply_builtin (b : builtin) (args : list val) : R val :=
   | (BMin | BMax), _ => Exc Unmodelled
   | BBool, [v] => Val (VBool (truthy v))
   | BListOf, [v] => let! l := iter_items v in Val (VList l)
+  | BIsInt, [VInt _] => Val (VBool true)          (* type(x) == int: exactly int, not bool *)
+  | BIsInt, [_] => Val (VBool false)
   | _, _ => Exc TypeError
   end.
 
-Definition strip_ws (s : list Z) : list Z :=
-  let ws c := (c =? 32) || ((9 <=? c) && (c <=? 13)) in
-  let fix dropw (l : list Z) := match l with c :: r => if ws c then dropw r else l | [] => [] end in
-  rev (dropw (rev (dropw s))).
+Definition strip_ws (s : list Z) : list Z := PyInt.strip s.      (* str.strip() on ASCII text: 9..13 and 28..32 *)
 
 (* str.split(sep) for a one-character separator *)
 Fixpoint split_on (c : Z) (s : list Z) (cur : list Z) : list (list Z) :=
@@ -432,6 +424,12 @@ Fixpoint eval (en : env) (e : expr) {struct e} : R val :=
   | EList l => let! vs := evals en l in Val (VList vs)
   | ETuple l => let! vs := evals en l in Val (VTuple vs)
   | EIndex a i => let! va := eval en a in let! vi := eval en i in apply_index va vi
+  | EField a i _ =>
+      let! va := eval en a in
+      match va with
+      | VObj _ fs => match nth_error fs i with Some v => Val v | None => Exc Unmodelled end
+      | _ => Exc Unmodelled
+      end
   | ESlice a lo hi =>
       let! va := eval en a in
       let! vlo := match lo with Some x => let! v := eval en x in opt_int (Some v) | None => Val None end in
